@@ -26,7 +26,7 @@ def select(rnd, fam, tier_all=False):
     i4 = rnd.choice([t for t in t4 if t[0] == "ifft"])
     s2 = [rnd.choice([t for t in t2 if t[0] == "fft"]), rnd.choice([t for t in t2 if t[0] == "ifft"])]
     odd_delta = rnd.choice([0, 2, 4, 65534])
-    odd_trunc = rnd.choice([1, 3, 5])
+    odd_trunc = rnd.choice([3, 5])
     for m in fam:
         key = (m.get("op"), m.get("size"), m.get("trunc"), m.get("delta"))
         if m["kind"] == "basis":
